@@ -123,6 +123,10 @@ func (d Decimal) Ceil(dp int) Decimal {
 	}
 
 	if exp > maxBiasedExponent {
+		if sig[0]|sig[1] == 0 {
+			return zero(neg)
+		}
+
 		return inf(neg)
 	}
 
@@ -214,6 +218,10 @@ func (d Decimal) Floor(dp int) Decimal {
 	}
 
 	if exp > maxBiasedExponent {
+		if sig[0]|sig[1] == 0 {
+			return zero(neg)
+		}
+
 		return inf(neg)
 	}
 
@@ -279,6 +287,10 @@ func (d Decimal) Round(dp int, mode RoundingMode) Decimal {
 	sig, exp = mode.round(false, neg, sig, int16(iexp), trunc, digit)
 
 	if exp > maxBiasedExponent {
+		if sig[0]|sig[1] == 0 {
+			return zero(neg)
+		}
+
 		return inf(neg)
 	}
 
